@@ -44,6 +44,19 @@ pub const FOCUS_ATTEMPT: Granularity = Granularity::Focus(
 
 pub const PROPS: &[&str] = &["C01", "C02", "C03", "C04", "C05", "C06", "C07", "C08", "C09", "C10", "C11", "C12", "C13", "C14"];
 
+/// Focus on cache fills: where an attempt starts and where a value fetched from the database is
+/// about to be inserted into the shared cache.
+pub const FOCUS_FILL: Granularity = Granularity::Focus(
+    "focus-fill",
+    &[
+        grevm_verif_rt::pt::EXEC_BEGIN,
+        grevm_verif_rt::pt::DB_FILL_STORAGE,
+        grevm_verif_rt::pt::DB_FILL_BASIC,
+        grevm_verif_rt::pt::CACHE_CLEAR,
+        grevm_verif_rt::pt::EXECUTION_CLAIMED,
+    ],
+);
+
 pub fn jobs(prop: &str, tier: Tier) -> Vec<Job> {
     match prop {
         "C01" => c01::jobs(tier),
